@@ -36,8 +36,14 @@ ALL_FEATURES = ('diamond', 'loop', 'selfloop', 'dupedge', 'alloca', 'volatile', 
 #                    Such modules are NOT Spec.IRSyntax.wf_modul (which demands disjoint names).
 #   'call_later'     functions call functions that are defined LATER in the module (instead of earlier
 #                    ones), so readers see references to not yet defined module-level names.
+#   'blob_types'     several blob types per module, incl. equal size / different alignment and equal alignment /
+#                    different size, used as parameter, return, external argument/return, call result, cast, phi
+#                    and undefined types, and allocas of those shapes with CopyBlob between them.
 EXTRA_FEATURES = ('shadow_global', 'call_later')
+# 'blob_types' emits ir.Undefined / CopyBlob instructions, which the IR text format (C15) cannot read: kept apart
+BLOB_FEATURES = ('blob_types',)
 ALL_FEATURES_X = ALL_FEATURES + EXTRA_FEATURES
+ALL_FEATURES_XB = ALL_FEATURES_X + BLOB_FEATURES
 SAFE_FEATURES = ('diamond', 'loop', 'selfloop', 'dupedge', 'alloca', 'volatile', 'globals', 'calls',
                  'casts', 'literal', 'shuffle', 'ptrarith')
 
@@ -116,6 +122,31 @@ class FnGen:
         o = self.const(self.rng.choice([ir.i32, ir.u32, ir.i64]), off)
         op = self.emit(ir.Cast(o, self.nm('off'), ir.ptr))
         return self.emit(ir.Binop(base, '+', op, self.nm('p'), ir.ptr))
+
+    def blob_prelude(self, env):
+        """values of several blob types in undefined / cast / call / phi positions, allocas + CopyBlob"""
+        rng, mg = self.rng, self.mg
+        b0, b1 = mg.blobs[0], mg.blobs[1]
+        us = [self.emit(ir.Undefined(self.nm('bu'), t)) for t in mg.blobs]
+        self.emit(ir.Cast(us[0], self.nm('bc'), b1))
+        self.emit(ir.Cast(us[1], self.nm('bc'), b0))
+        r = self.emit(ir.FunctionCall(mg.bxf, [us[0], us[1]], self.nm('br'), b1))
+        self.emit(ir.ProcedureCall(mg.bxp, [r, us[0]] + us[2:]))
+        ptrs = []
+        for t in mg.blobs[:2]:
+            a = self.emit(ir.Alloc(self.nm('balloc'), t.size, t.alignment))
+            ptrs.append(self.emit(ir.AddressOf(a, self.nm('baddr'))))
+        self.emit(ir.CopyBlob(ptrs[0], ptrs[1], min(b0.size, b1.size)))
+        if rng.random() < 0.6:
+            pre = self.cur
+            nxt = self.block('bphi')
+            t = rng.choice(self.types)
+            a = self.get(env, t)
+            self.emit(ir.CJump(a, '==', a, nxt, nxt))
+            self.cur = nxt
+            for u in us[:2]:
+                ph = self.emit(ir.Phi(self.nm('bp'), u.ty))
+                ph.set_incoming(pre, u)
 
     def shadow_prelude(self, env):
         """give the remaining shadow names to locals and use them as operands"""
@@ -405,6 +436,24 @@ class ModGen:
             m.add_variable(ir.Variable('sg0', ir.Binding.GLOBAL, 8, 8, None))
             m.add_external(ir.ExternalVariable('sx0'))
             m.add_external(ir.ExternalProcedure('sxp0', []))
+        self.blobs = None
+        if 'blob_types' in feats:
+            shapes = rng.choice([[(8, 4), (8, 8), (16, 8)], [(8, 8), (8, 4), (12, 4)], [(16, 4), (16, 8), (8, 8), (8, 1)]])
+            self.blobs = [ir.BlobDataTyp(sz, al) for sz, al in shapes]
+            b0, b1 = self.blobs[0], self.blobs[1]
+            self.bxf = ir.ExternalFunction('bxf', [b0, b1], b1)
+            self.bxp = ir.ExternalProcedure('bxp', [b1, b0] + self.blobs[2:])
+            m.add_external(self.bxf)
+            m.add_external(self.bxp)
+            bf = ir.Function('bf0', ir.Binding.GLOBAL, b1)
+            m.add_function(bf)
+            pa, pb = ir.Parameter('ba', b0), ir.Parameter('bb', b1)
+            bf.add_parameter(pa)
+            bf.add_parameter(pb)
+            blk = ir.Block('bf0_entry')
+            bf.add_block(blk)
+            bf.entry = blk
+            blk.add_instruction(ir.Return(pb))
         nfun = rng.randint(1, max(1, self.size))
         later = 'call_later' in feats and rng.random() < 0.7
         if later:
@@ -445,7 +494,7 @@ class ModGen:
         pnames = ['a%d' % j if not clash else rng.choice(['a0', 'g0', 'v_c']) for j in range(len(params))]
         if 'shadow_global' in feats and rng.random() < 0.8:
             pool = [g.name for g in self.gvars] + [e.name for e in self.m.externals] + list(earlier) + ['sg0']
-            pool = [n for n in dict.fromkeys(pool) if n != f.name]
+            pool = [n for n in dict.fromkeys(pool) if n != f.name and n not in ('bxf', 'bxp', 'bf0')]
             chosen = rng.sample(pool, min(len(pool), rng.randint(1, 3)))
             fg.banned = set(chosen)
             for j in range(len(pnames)):
@@ -463,7 +512,9 @@ class ModGen:
             for p in f.arguments:                       # shadowing parameters in typed positions
                 if p.name in fg.banned:
                     env[p.ty].append(fg.emit(ir.Binop(p, '+', fg.const(p.ty), fg.nm('sp'), p.ty)))
-            fg.shadow_prelude(env)
+            fg.shadow_prelude(env)                      # in the entry block: never a forward reference
+        if self.blobs and rng.random() < 0.8:
+            fg.blob_prelude(env)
         for _ in range(rng.randint(1, max(1, self.size))):
             fg.segment(env, 0)
         if rt is None:
@@ -478,7 +529,7 @@ class ModGen:
 
 def gen_module(rng, size=3, features=None, name='gen'):
     feats = frozenset(ALL_FEATURES if features is None else features)
-    unknown = feats - set(ALL_FEATURES) - set(EXTRA_FEATURES) - {'name_clash'}
+    unknown = feats - set(ALL_FEATURES) - set(EXTRA_FEATURES) - set(BLOB_FEATURES) - {'name_clash'}
     if unknown:
         raise ValueError('unknown features: %s' % sorted(unknown))
     m = ModGen(rng, size, feats, name).build()
